@@ -211,9 +211,13 @@ class RefVM:
         except Exception as e:  # noqa
             raise OutOfDomain("formatting raises " + type(e).__name__)
 
-    def emit(self, v, end="\n", stack=None):
+    def emit(self, v, end="\n", stack=None, frame=None):
         self.effect("print")
         self.printed = True
+        if isinstance(v, Fn) and frame is not None and frame.kind == "listitem":
+            # (R12) is a reading of the implementation, not of the documents; "the current stack" of a list item (a private copy
+            # that the interpreter does not register anywhere) is not something the documents define: out of the domain
+            raise OutOfDomain("printing a function value inside a list item")
         if isinstance(v, Fn) and stack is not None:
             # (R12) printing a function value calls it on the current stack, as the call element would, and prints the result
             # with a newline (the `end` of the printing element is not passed on)
@@ -518,13 +522,13 @@ class RefVM:
         elif k == "?":
             st.append(self.explicit_input())
         elif k == ",":
-            self.emit(self.pop1(st), stack=st)
+            self.emit(self.pop1(st), stack=st, frame=frame)
         elif k == "…":
             v = self.pop1(st)
-            self.emit(v, stack=st)
+            self.emit(v, stack=st, frame=frame)
             st.append(v)
         elif k == "₴":
-            self.emit(self.pop1(st), end="", stack=st)
+            self.emit(self.pop1(st), end="", stack=st, frame=frame)
         elif k == "£":
             self.effect("register write")
             self.register = self.pop1(st)
